@@ -185,6 +185,18 @@ def check(chk):
     s = src(fc)
     chk.judge(s.count('self._cleanup_failed_on_up_handling(host)') == 2, 'C25.flag', fc, 'failed pool creation cleans up (pools removed, reconnector restarted)', 'failed on_up handling is not cleaned up')
     cu = cl.func('Cluster._cleanup_failed_on_up_handling')
+    # the policies learn that the host is up before its pools are requested: add_or_renew_pool asks the policy for the host's distance
+    chk.rule('C25.order', 'Cluster.on_up: profile_manager.on_up(host) precedes every session.add_or_renew_pool(host, ...) on all paths')
+    from ..cfg import CFG as _CFG25
+    ou_ = cl.func('Cluster.on_up')
+    g25 = _CFG25(ou_)
+    pm_ = [n for n in g25.stmt_nodes() if n.kind == 'stmt' and n.ast is not None and any(isinstance(x, ast.Call) and src(x.func) == 'self.profile_manager.on_up' for x in ast.walk(n.ast))]
+    ar_ = [n for n in g25.stmt_nodes() if n.kind == 'stmt' and n.ast is not None and any(isinstance(x, ast.Call) and isinstance(x.func, ast.Attribute) and x.func.attr == 'add_or_renew_pool' for x in ast.walk(n.ast))]
+    if not pm_ or not ar_:
+        raise AnalysisError('Cluster.on_up: profile_manager.on_up / add_or_renew_pool not found')
+    chk.judge(all(any(g25.dominates(p_, a_) for p_ in pm_) for a_ in ar_), 'C25.order', ou_, 'policies are told the host is up before pools are requested',
+              'add_or_renew_pool is asked while the load-balancing policies still consider the host down: a policy that ignores down hosts (DC-aware, remote DC) answers IGNORED, no pool is '
+              'created, and the host is then marked up - and planned - without a pool in any session')
     chk.judge('self._start_reconnector(host, is_host_addition=False)' in src(cu) and 'session.remove_pool(host)' in src(cu), 'C25.flag', cu,
               'cleanup restarts the reconnector', 'cleanup no longer restarts reconnection')
 
